@@ -37,6 +37,10 @@ MUTATIONS = [
  ('m27', 'C17', 'src/math/cpu_math.rs', r's/array1.try_as_col_major_mut\(\).unwrap\(\).as_slice_mut\(\),\n            array2.try_as_col_major\(\).unwrap\(\).as_slice\(\),\n        \)\n    \}\n\n    fn array_recip/array1.try_as_col_major_mut().unwrap().as_slice_mut(),\n            array2.try_as_col_major().unwrap().as_slice(),\n        );\n        self.fill_array(array1, 1.0)\n    }\n\n    fn array_recip/', 'array_mult_inplace result overwritten at the dispatch layer'),
  ('m28', 'C18', 'src/mclmc.rs', r's/remaining = prev_remaining - 1;\n                            factor \*= 2.0;/remaining = prev_remaining - 1;/', 'factor never doubled back after a retry'),
  ('m29', 'C18', 'src/mclmc.rs', r's/&& self.draw_count == self.switch_draw/&& self.draw_count + 1 == self.switch_draw/', 'switch one draw early'),
+ ('m30', 'C13', 'src/sampler.rs', r's/chain.flush\(\)\?;/let _ = chain.flush();/', 'controller ignores a failing flush'),
+ ('m31', 'C13', 'src/sampler.rs', r's/Ok\(\(Some\(err\), trace\)\) => return SamplerWaitResult::Err\(err, Some\(trace\)\),/Ok((Some(_err), trace)) => return SamplerWaitResult::Trace(trace),/', 'wait_timeout reports success although finalisation failed'),
+ ('m32', 'C13', 'src/sampler.rs', r's/                result\?;\n                Ok\(output\)/                let _ = result;\n                Ok(output)/', 'controller drops the command-loop error'),
+ ('m33', 'C13', 'src/sampler.rs', r's/Ok\(Err\(e\)\) => return SamplerWaitResult::Err\(e, None\),/Ok(Err(_e)) => remaining = timeout.checked_sub(start.elapsed()),/', 'wait_timeout keeps waiting after a chain error'),
  ('e01', 'C18', 'src/mclmc.rs', r's/&& self.draw_count == self.switch_draw/&& self.draw_count >= self.switch_draw/', 'EQUIVALENT on reachable states: must not be flagged'),
  ('e02', 'C08', 'src/math/cpu_math.rs', r's/\*mean \+= diff \* diff_scale;\n                \*var \+= diff \* diff;/*mean += diff * diff_scale;\n                *var += diff * (x - *mean);/', 'EQUIVALENT for the property (ratio of variances unchanged): must not be flagged'),
 ]
@@ -103,7 +107,9 @@ def main():
         wt = '%s/wt%d' % (base, k); outd = '%s/out%d' % (base, k); os.makedirs(outd)
         # scratch copy of /repo's current working tree (not of HEAD): worktree at HEAD + the working-tree diff
         sh('git worktree add --detach %s HEAD -f' % wt, R)
-        sh('git diff HEAD | (cd %s && git apply --allow-empty -)' % wt, R); sh('git add -A && git -c user.email=x -c user.name=x commit -qm wt --allow-empty', wt)
+        rc, dirty = sh('git status --porcelain', R)
+        if dirty.strip():    # /repo has uncommitted changes: carry them over and make them the scratch baseline
+            sh('git diff HEAD | (cd %s && git apply -)' % wt, R); sh('git add -A && git -c user.email=x -c user.name=x commit -qm wt', wt)
         try:
             while True:
                 try: it = q.get_nowait()
